@@ -71,6 +71,26 @@ def int_pool(rng, bits, n_rand):
     out = [0, 1, M, 1 << (bits - 1), (1 << (bits - 1)) - 1, (1 << (bits - 1)) + 1, 2, M - 1]
     for k in range(1, bits // 7 + 1):
         out += [(1 << (7 * k - 1)) - 1, 1 << (7 * k - 1), (M ^ ((1 << (7 * k - 1)) - 1)), (M ^ ((1 << (7 * k - 1)))) & M, 1 << (7 * k) if 7 * k < bits else 0]
+    # decimal structure: the literal is printed in decimal, so powers of ten, their neighbours, multiples, and values
+    # whose decimal digits contain runs of zeros (any digit group of a formatter that prints in pieces), as signed
+    # and as unsigned readings of the same bits
+    ndig = len(str(M))
+    for k in range(ndig):
+        p = 10 ** k
+        for v in (p, p - 1, p + 1, 9 * p, 5 * p + 1, -p, -p - 1, -9 * p):
+            if -(1 << (bits - 1)) <= v <= M:
+                out.append(v)
+    for _ in range(max(12, n_rand // 4)):
+        digits = [rng.choice("0000123456789") for _ in range(rng.randint(ndig - 2, ndig))]
+        digits[0] = rng.choice("123456789")
+        for _ in range(rng.randint(0, 2)):
+            a = rng.randrange(1, len(digits))
+            b = min(len(digits), a + rng.choice([3, 8, 9, 10]))
+            digits[a:b] = "0" * (b - a)
+        v = int("".join(digits))
+        if v <= M:
+            out += [v, -v]
+    out += [0x9E3779B97F4A7C15, 0xCBF29CE484222325, 1000000007, 998244353, 0xDEADBEEF, 0x0123456789ABCDEF]
     out += [rng.getrandbits(bits) for _ in range(n_rand)]
     return list(dict.fromkeys(v & M for v in out))
 
@@ -183,6 +203,10 @@ def main():
                    "distinct_nontrivial = number of distinct constants",
            "constants": len(consts), "classes_hit": len(classes), "class_histogram": classes,
            "builds": [b["name"] for b in builds], "exhaustive": False}
+    # the repository's own spec-suite corpus for this instruction family: model vs the suite's expectations, w2c2 vs model
+    sys.path.insert(0, os.path.dirname(os.path.abspath(__file__)))
+    import corpus
+    cov.update(corpus.phase(v, "C07", tier))
     return v.finish("model_checking", cov,
                     ["float results are also observed through reinterpret to an integer, so that NaN payloads are compared bit for bit",
                      "gcc 12 / clang 14 on x86-64 (SSE2 argument passing keeps signalling NaNs intact)"])
